@@ -273,7 +273,7 @@ func (t *Tester) runDescribedTests(
 			err := i.ProcessTestSubroutine(s, sub)
 			cases = append(cases, &TestCase{
 				Name:  metadata.Name,
-				Group: d.Name.String(),
+				Group: d.Name.Value,
 				Error: errors.Cause(err),
 				Scope: s.String(),
 				Time:  time.Since(start).Milliseconds(),
